@@ -1,5 +1,48 @@
 import Sigc.Model
-import Sigc.Spec
-/-! property theorems for C08 (being written) -/
+import Sigc.Lemmas.Basic
+/-!
+# C08 — an exception thrown by a slot propagates and leaves the signal consistent
+(first theorems: propagation; consistency after unwinding is part of the invariant proved in Sigc/Lemmas/Emit*.lean)
+-/
 namespace Sigc.C08
+open Sigc.Model
+
+/-- a functor body stops at the first operation that lets an exception escape: the rest is skipped -/
+theorem runBody_stops_at_exc (f : Nat) (P : Prog) (s s' : St) (l : Line) (ls : List Line)
+    (h : execLine f P s l = some (s', .exc)) :
+    runBody (f+1) P s (l :: ls) = some (s', .exc) := by
+  rw [runBody]
+  simp [h]
+
+theorem runBody_continues (f : Nat) (P : Prog) (s s' : St) (l : Line) (ls : List Line)
+    (h : execLine f P s l = some (s', .ok)) :
+    runBody (f+1) P s (l :: ls) = runBody f P s' ls := by
+  rw [runBody]
+  simp [h]
+
+/-- `throw` lets an exception escape, in every state -/
+theorem throw_raises (f : Nat) (P : Prog) (s : St) : execOp (f+1) P s .throw_ = some (s, .error ()) := by
+  rw [execOp]
+
+/-- the non-accumulating emitter stops at the throwing slot: no later cell is offered its turn
+    (the result is produced without a recursive call of the loop) -/
+theorem emitLoop_stops_at_exc (f : Nat) (P : Prog) (s s' : St) (i cur m arg r v : Nat) (im : Impl) (c : Cell) (fn : Fun)
+    (hne : cur ≠ m) (hi : aget s.impls i = some im) (hc : im.cells.find? (·.id = cur) = some c)
+    (hb : c.slot.blocked = false) (hrep : c.slot.rep = some { call := true, fn := some fn })
+    (hx : invokeFun f P s fn arg = some (s', .exc, v)) :
+    emitLoop (f+1) P s i cur m arg r = some (s', .exc, v) := by
+  rw [emitLoop]
+  simp only [hne, if_false, hi, hc, hrep, hb]
+  simp [hx]
+
+/-- an emit operation lets the exception escape unless it is a `tryemit` -/
+theorem emit_propagates (f : Nat) (P : Prog) (s s' : St) (g arg : Nat) (st : Strat) (h : Handle) (v : Nat)
+    (hg : aget s.G g = some h) (hd : ¬ s.depth ≥ P.maxdepth) (hs : ¬ s.steps > P.maxsteps)
+    (hx : emitImpl f P s h.fl h.impl arg st = some (s', .exc, v)) :
+    execOp (f+1) P s (.emit g arg st false) = some (s', .error ()) ∧
+    execOp (f+1) P s (.emit g arg st true) = some (s', .ok "caught") := by
+  constructor <;> (rw [execOp]; simp [hg, hd, hs, hx])
+
+example : execOp 1 { bodies := [], top := [] } {} .throw_ = some ({}, .error ()) := throw_raises 0 _ _
+
 end Sigc.C08
